@@ -650,9 +650,9 @@ func genCases(r *fw.Run, prop string) []*genCase {
 			}
 		}
 	}
-	cases = append(cases, c07Positions(r.Pick(60, 1200), rng)...)
+	cases = append(cases, c07Positions(r.Pick(60, 3000), rng)...)
 	g := &IDLGen{R: rng, GenDomain: true}
-	n := r.Pick(60, 1800)
+	n := r.Pick(60, 4000)
 	for i := 0; i < n; i++ {
 		var d *Desc
 		if i%8 == 0 {
